@@ -150,12 +150,13 @@ PROPS = {
         T_PBT + "oracle = payload identity predicate + metamorphic style-twin relation",
         [job("main", "^TestC17$", q=4, th=16)]),
     "C18": P("Success never yields the empty action", "exploration",
-        "cases = exhaustive configuration matrix: every leaf kind/style, flow-as-node, batch nodes (9 prep forms x n in 0..3 x c in 0..2 x with/without post x builder/*BatchNode) x post in {empty, default, custom, whitespace-only} x {run directly, routed step of a flow whose default edge leads to a sentinel} (post actions also whitespace-only; incl. exec path {succeeds, succeeds on retry, fallback recovers} and batches run under an already-cancelled context); every case is non-trivial by construction (distinct configuration)",
-        "oracle: err==nil => action non-empty and == default when post returned empty; in a flow the default-connected sentinel runs when post returned empty or default (what a custom action selects is C01/C03/C10's)",
-        "exhaustive enumeration of the quantified configuration space",
-        "trusted: harness node constructors",
-        "exhaustive small-scope enumeration with a direct oracle",
-        [job("main", "^TestC18$", q=2, th=4)], exhaustive_only=True),
+        "cases = (a) exhaustive configuration matrix: every leaf kind/style, flow-as-node, batch nodes (9 prep forms x n in 0..3 x c in 0..2 x with/without post x builder/*BatchNode) x post in {empty, default, custom, whitespace-only} x {run directly, routed step of a flow whose default edge leads to a sentinel} (incl. exec path {succeeds, succeeds on retry, fallback recovers} and batches run under an already-cancelled context); (b) rapid: arrangements of leaves of every kind, batch members and flows nested up to depth 4 in which posts answer the empty action at random places (structured hierarchies whose parents branch on inner flows' final actions + random graphs), each run AS A NODE through flyt.Run, 1-2 runs of the same objects; "
+        "non-trivial = (a) every distinct configuration, (b) a successful run in which at least one post answered the empty action",
+        "oracle: (a) err==nil => action non-empty and == default when post returned empty; in a flow the default-connected sentinel runs when post returned empty or default (what a custom action selects is C01/C03/C10's); (b) metamorphic twin: the same arrangement with every empty post answer replaced by \"default\" - if either run succeeds both must, with the same callbacks in the same order and the same non-empty final action (runs in which both fail are not compared)",
+        "exhaustive enumeration of the configuration matrix + metamorphic generated search over nested arrangements",
+        "trusted: harness node constructors, trace recorder",
+        T_PBT + "oracle = direct predicate on the exhaustive matrix + metamorphic empty/default twin on generated nested flows",
+        [job("main", "^TestC18$", q=2, th=16)]),
     "C19": P("Configuration styles equivalent", "exploration",
         "cases = setting sequences over {max retries, wait, batch concurrency, batch error handling, prep/exec/post/fallback function} x 3 values x {constructor option (both as NodeOption and as plain func(*BaseNode)), builder method}, for NewNode and NewBatchNode: exhaustive for length<=3 (quick)/<=5 (thorough) over the four scalar parameters, rapid up to length 6 (+2) over all eight; "
         "non-trivial = at least two different forms or an overwritten parameter",
